@@ -834,6 +834,17 @@ func runC16(r *Rand, tier string, o *Out) {
 			o.Fail("removal of an object whose hook removes other objects: "+strings.TrimPrefix(res, "fail:"), op+" => "+res+" "+crashReason(lastFailDetail))
 		}
 	}
+	{
+		op := "svc.clientobjs 300"
+		if tier == "thorough" {
+			op = "svc.clientobjs 3000"
+		}
+		res := o.Do("P", op, true)
+		o.Count("op:objects-on-the-client-side")
+		if res != "ok" {
+			o.Fail("objects on the client's side of a service: "+strings.SplitN(strings.TrimPrefix(res, "fail:"), " ", 2)[0], op+" => "+res+" "+crashReason(lastFailDetail))
+		}
+	}
 	for i := 0; i < 2; i++ {
 		res := o.Do("P", "svc.termwalk", true)
 		o.Count("op:registrations-while-the-subscribers-are-told")
